@@ -123,6 +123,13 @@ CHECKS = [
            "relation 8(f(x+h)-f(x-h))-(f(x+2h)-f(x-2h)) = 12hJ at 1e-4 on mantissa pairs for all classes.",
       note="stencil marked inconclusive when cancellation leaves < 13 bits; never straddles a branch change",
       technique="TLA+ exact rational oracle (TLC-generated cases replayed) + TLC trace validation of float relations"),
+ dict(property_id="C18", category="model_checking", design_ref="3.18",
+      text="Purity.tla states the frame condition (heap of argument digests unchanged by Call) and the determinism condition (memo of results); "
+           "PurityTrace.tla consumes recorded Alloc/Call events of a catalogue driver that calls 109 public array-taking functions under four input "
+           "layouts twice with the same seed: a Call line is consumed only if the post-call digests of its arguments equal the heap and the result "
+           "agrees with the memo.",
+      note="48-bit content digests (bytes, dtype, shape, index/columns; grid cell values); layouts a function rejects are not calls",
+      technique="TLA+ frame/determinism spec + TLC trace validation of recorded call events"),
 ]
 
 _PENDING = "check not built yet in this round; see DESIGN.md section 3 for the planned specification"
